@@ -663,6 +663,7 @@ class Monitor:
         self.found: list[tuple[str, str]] = []      # (signature, what)
         self.prev_rows: list[dict] = []
         self.prev_dl: list[dict] = []
+        self.claims: dict[int, int] = {}           # row id -> how often a poll / process_one handed it out
 
     def _sec(self, x):
         return x // 1000
@@ -692,6 +693,8 @@ class Monitor:
             self.gone_ok.add(by_id[op["id"]]["mid"])
         if k == "proc" and res[0] == "msg" and op["ok"] and res[1] in by_id:
             self.gone_ok.add(by_id[res[1]]["mid"])
+        if k in ("replay", "cutreplay", "move", "cutmove", "clearq", "cleardlq", "inject"):
+            self.claims.clear()
         if k == "clearq":
             self.gone_ok |= {r["mid"] for r in self.prev_rows}
         if k == "cleardlq":
@@ -699,6 +702,19 @@ class Monitor:
         # exclusivity
         if k in ("poll", "proc", "claim") and res[0] == "msg":
             self.claim_seen(res[1], op.get("lock_from", t_before))
+            # the attempt limit: a row is handed out at most min(row max_attempts, queue max_attempts) times, then it is
+            # hidden from polls and the sweep dead-letters it (a message that keeps failing is not retried for ever)
+            rid = res[1]
+            row = by_id.get(rid)
+            if k == "proc" and not op["ok"] and row is not None:
+                # counted on the processor's failure path only (handler raised -> reschedule with the retry delay); a DLQ
+                # replay / move starts a new life of the message (see below)
+                self.claims[rid] = self.claims.get(rid, 0) + 1
+            lim = env.cfg["qmax"]      # poll_one hides a row once attempts >= the QUEUE's max_attempts (the row's own, smaller
+            # limit is applied by the sweep only: until a sweep runs such a row may still be handed out)
+            if self.claims.get(rid, 0) > lim:
+                self.note("over-delivered", f"row {rid} was handed out {self.claims[rid]} times although its attempt limit is {lim}: "
+                                            f"the attempt counter no longer grows with every delivery (attempts now {row['att'] if row else '?'})")
         if k in ("resched", "extend") and op["id"] in self.holders:
             self.holders[op["id"]]["touched"] = True
         if k == "proc" and res[0] == "msg" and not op["ok"] and res[1] in self.holders:
@@ -905,6 +921,12 @@ def named_cases():
     out.append(("processor", dict(d, retry_ms=2500), [P(), P(), {"op": "proc", "p": 0, "ok": True}, {"op": "proc", "p": 0, "ok": False}, {"op": "proc", "p": 0, "ok": True},
                                                       T(2500), {"op": "proc", "p": 1, "ok": True}, {"op": "proc", "p": 0, "ok": True},
                                                       {"op": "sweep", "p": 0, "via_processor": True}]))
+    # a poison message under the processor's DELAYED retry: every failure is rescheduled with the retry delay, the delay passes,
+    # the message is delivered again - after max_attempts deliveries it must be dead-lettered, not retried for ever
+    q3 = dict(d, qmax=3, lock_ms=1000, retry_ms=2500)
+    fail = {"op": "proc", "p": 0, "ok": False}
+    out.append(("poison-delayed-retry", q3, [P(), fail, T(2500), fail, T(2500), fail, T(2500), fail, T(2500), fail, T(2500),
+                                             {"op": "sweep", "p": 0, "via_processor": True}, fail]))
     out.append(("clear", d, [P(), P(), PO, {"op": "move", "id": 2}, {"op": "cleardlq"}, {"op": "clearq"}, P(), {"op": "readonly"}]))
     out.append(("extend-shortens", dict(d, lock_ms=2000), [P(), PO, {"op": "extend", "id": 1, "dur": 500}, T(1000), PO, {"op": "extend", "id": 1, "dur": 90000}, T(61000), PO]))
     return out
